@@ -25,6 +25,10 @@ def crafted():
         # F8: an edit lands while b waits for its retry; a has completed against the older state; the cycle closes on the newer one
         {'id': 'known-F8', 'handlers': {'a': H.hdl(['create', 'update'], ['ok']), 'b': H.hdl(['create', 'update'], [('temp', 3), 'ok'])},
          'lifecycle': 'asap', 'env': [(2, 1, 'edit', 2)], 'end': 90, 'tail_from': 40},
+        # the stream breaks and the operator re-lists while the worker sleeps for the handler's delay; the object is unchanged: the listed
+        # state wakes the sleeper and is processed like any other event, the handler is retried in time
+        *[{'id': f'relist-while-sleeping-{d}-{tr}', 'handlers': {'a': H.hdl(['create', 'update'], [('temp', d), 'ok'])},
+           'lifecycle': 'asap', 'env': [(tr, 1, 'relist')], 'end': 90, 'tail_from': 40} for d, tr in ((6, 3), (4, 2), (8, 5), (6, 6))],
         {'id': 'known-F22', 'handlers': {'a': H.hdl(['create', 'update'], [('temp', 5), 'ok'])},
          'lifecycle': 'asap', 'env': [(3, 1, 'toggle')], 'end': 90, 'tail_from': 40},
     ]
